@@ -23,7 +23,8 @@ CONSTANTS
   Hnd,        \* (*data,*size) handles used with crypt_ra
   Blk,        \* heap block identities
   Req,        \* abstract request classes (phrase, setting)
-  OutcomeOf(_) \* request class -> [k, err, validated, key, tokstar1]
+  OutcomeOf(_), \* request class -> [k, err, validated, key, tokstar1]
+  TokenFirst    \* TRUE: the code's order (token, then size check); FALSE: the non-vacuity mutant
 
 \* ---------------------------------------------------------------------------
 VARIABLES
@@ -62,7 +63,7 @@ SetErrno(e) == errno' = IF e = NOERR THEN errno ELSE e
 
 \* --- crypt_rn on a caller object
 CryptRN(o, r, sz) ==
-  LET oc == OutcomeOf(r)  x == StepCryptRN(obj[o], oc, sz) IN
+  LET oc == OutcomeOf(r)  x == IF TokenFirst THEN StepCryptRN(obj[o], oc, sz) ELSE StepCryptRN_late(obj[o], oc, sz) IN
   /\ obj' = [obj EXCEPT ![o] = x.d]
   /\ SetErrno(x.err) /\ ret' = x.ret
   /\ last' = Did("crypt_rn", Judge(Call("crypt_rn", oc, sz, obj[o], x.d, errno, NewErr(x.err), x.ret, FALSE, TRUE, FALSE)))
